@@ -1,5 +1,6 @@
 import Neutrino.Props.C08
 import Neutrino.Props.C08Import
+import Neutrino.Props.C08Trans
 open Neutrino.Store
 #print axioms C08_recover
 #print axioms C08_recovered_consistent
@@ -19,3 +20,6 @@ open Neutrino.Store
 #print axioms C08_import_source_shape
 #print axioms importOps_contract
 #print axioms applySeq_importOps_take
+#print axioms Neutrino.Store.C08_trans_trimPartialHeader
+#print axioms Neutrino.Store.C08_trans_trimPartialHeader_err
+#print axioms Neutrino.Store.C08_trans_resetInterruptedInit
